@@ -18,7 +18,7 @@ def prepare() -> list[str]:
     from harness.translate import tsql
 
     try:
-        return tsql.write_cc()
+        return tsql.run_isolated("cc")
     except Exception as e:  # noqa: BLE001  the capture run itself failed inside the real code or the translator
         return [f"T-sql capture/translation failed: {type(e).__name__}: {str(e)[:300]}"]
 
